@@ -21,7 +21,7 @@ Lemma orel_trans : forall A s1 s2 s3, Orel A s1 s2 -> Orel A s2 s3 -> Orel A s1 
 Proof. unfold Orel; intros; eapply Srel_trans; eauto. Qed.
 
 Lemma emit_ok_weaken : forall (R A : uid -> Prop) e, emit_ok R A e -> emit_ok anyR A e.
-Proof. intros R A [a|x|x|x y z]; simpl; unfold anyR; auto. Qed.
+Proof. intros R A [a|x|x|x y z|x]; simpl; unfold anyR; auto. Qed.
 
 Lemma srel_orel : forall (R A : uid -> Prop) s s', Srel R A s s' -> Orel A s s'.
 Proof.
